@@ -12,16 +12,15 @@
 //! upstream are unchanged must produce exactly A's outputs of that stream. `ReloadReport` must
 //! list a changed stream in `streams_updated` (a renamed one in `streams_added`).
 //!
-//! Signatures:
-//!   reload/unchanged-stream/<family>/<route-lost|state-reset|different>   (same-program reload and
-//!       unchanged streams of an edited program: same obligation, same root causes)
-//!   reload/same-program/any/order-only
-//!   reload/changed-stream/<edit>/<family>/<route-lost|old-definition-kept|different>
-//!   reload/report/<edit>/<family>/changed-stream-not-updated
-//! `route-lost` is observed through hook H4 (the expected engine handed an event to the stream at
-//! a step where the reloaded engine did not); `state-reset` = the stream behaves exactly like a
-//! fresh one from c; `old-definition-kept` = the stream behaves exactly like the never-reloaded
-//! engine of the old program.
+//! Signatures (root-cause oriented; <family> = filter|window|sequence|pattern|join|distinct|limit|merge):
+//!   reload/route-lost/<family>                 a judged stream (changed or not) diverges and hook H4 shows that the
+//!                                              expected engine handed it an event of some type at a step where the
+//!                                              reloaded engine did not
+//!   reload/old-definition-kept/<family>        a changed stream behaves exactly like the never-reloaded old program
+//!   reload/report/changed-stream-not-updated   ReloadReport does not list a changed stream as updated / added
+//!   reload/same-program/order-only             every stream's own outputs equal, interleaving across streams differs
+//!   reload/unchanged-stream/<family>/<state-reset|different>
+//!   reload/changed-stream/<edit>/<family>/different
 #[path = "../ckgen.rs"]
 mod ckgen;
 use ckgen::*;
@@ -45,8 +44,8 @@ fn fresh(program: &Program) -> Result<Loaded, String> {
 struct Run {
     /// per step: canonical outputs in order
     outs: Vec<Vec<String>>,
-    /// per step: streams that were handed an event (hook H4)
-    routes: Vec<BTreeSet<String>>,
+    /// per step: (event type, stream) pairs: the stream was handed an event of that type (hook H4)
+    routes: Vec<BTreeSet<(String, String)>>,
 }
 
 fn step(l: &mut Loaded, rt: &tokio::runtime::Runtime, i: &In, run: &mut Run) -> Result<(), String> {
@@ -55,9 +54,15 @@ fn step(l: &mut Loaded, rt: &tokio::runtime::Runtime, i: &In, run: &mut Run) -> 
     let r = rt.block_on(l.engine.process(i.event()));
     let mut routed = BTreeSet::new();
     #[cfg(varpulis_verif)]
-    for ent in varpulis_runtime::verif::route_log_take() {
-        if let varpulis_runtime::verif::RouteEntry::Stream(name) = ent {
-            routed.insert(name);
+    {
+        let mut cur = String::new();
+        for ent in varpulis_runtime::verif::route_log_take() {
+            match ent {
+                varpulis_runtime::verif::RouteEntry::Popped { event, .. } => cur = event.event_type.to_string(),
+                varpulis_runtime::verif::RouteEntry::Stream(name) => {
+                    routed.insert((cur.clone(), name));
+                }
+            }
         }
     }
     r.map_err(|e| format!("process: {}", e))?;
@@ -108,6 +113,11 @@ fn run_reload(p: &Program, p2: &Program, ins: &[In], c: usize, rt: &tokio::runti
     Ok(Ok(ReloadRun { run, report, updated: rep.streams_updated.iter().cloned().collect(), added: rep.streams_added.iter().cloned().collect(), state_items_at_reload: items }))
 }
 
+/// Some (event type -> stream) hand-over seen in `exp` at a step is missing in `got` at that step.
+fn lost_route(exp: &[BTreeSet<(String, String)>], got: &[BTreeSet<(String, String)>], stream: &str) -> bool {
+    exp.iter().zip(got.iter()).any(|(e, g)| e.iter().any(|r| r.1 == stream && !g.contains(r)))
+}
+
 fn of_stream<'a>(lines: &'a [String], name: &str) -> Vec<&'a String> {
     lines.iter().filter(|l| stream_of(l) == name).collect()
 }
@@ -125,7 +135,7 @@ fn family(kind: &str) -> &'static str {
 // Edits
 // ---------------------------------------------------------------------------------------------
 
-const EDITS: [&str; 5] = ["threshold", "add-step", "remove-step", "window", "rename"];
+const EDITS: [&str; 6] = ["threshold", "add-step", "remove-step", "window", "rename", "function"];
 
 fn other(rng: &mut Rng, lo: i64, hi: i64, cur: i64) -> i64 {
     loop {
@@ -190,6 +200,11 @@ fn edit_stream(rng: &mut Rng, p: &Prog, idx: usize, edit: &str) -> Option<Stream
                 }
             }
             Kind::Join { window_ms, .. } => *window_ms = other(rng, 2, 7, *window_ms),
+            _ => return None,
+        },
+        "function" => match &mut s.kind {
+            // the body of the user function the stream calls changes; the stream's own text does not
+            Kind::FnFilter { add, .. } => *add = other(rng, 0, 3, *add),
             _ => return None,
         },
         "rename" => {
@@ -418,10 +433,10 @@ fn check_case(case: &Case, only_cut: Option<usize>, out: &mut Partial, rt: &toki
                 if b.run.outs[c..] != a.outs[c..] {
                     let d = first_stream_divergence(&names_p, &a.outs[c..], &b.run.outs[c..]);
                     match d {
-                        None => out.violation("reload/same-program/any/order-only", "after reload(P) every stream produces the same outputs but interleaved differently across streams", wit(json!({"expected_after": a.outs[c..].to_vec(), "observed_after": b.run.outs[c..].to_vec(), "report": b.report}))),
+                        None => out.violation("reload/same-program/order-only", "after reload(P) every stream produces the same outputs but interleaved differently across streams", wit(json!({"expected_after": a.outs[c..].to_vec(), "observed_after": b.run.outs[c..].to_vec(), "report": b.report}))),
                         Some((j, name, kind)) => {
                             let dstep = c + j;
-                            let route_lost = (c..=dstep).any(|t| a.routes[t].contains(&name) && !b.run.routes[t].contains(&name));
+                            let route_lost = lost_route(&a.routes[c..=dstep], &b.run.routes[c..=dstep], &name);
                             let symptom = if route_lost {
                                 "route-lost"
                             } else {
@@ -433,7 +448,7 @@ fn check_case(case: &Case, only_cut: Option<usize>, out: &mut Partial, rt: &toki
                                 }
                             };
                             out.violation(
-                                &format!("reload/unchanged-stream/{}/{}", family(&kind), symptom),
+                                &(if route_lost { format!("reload/route-lost/{}", family(&kind)) } else { format!("reload/unchanged-stream/{}/{}", family(&kind), symptom) }),
                                 "after a reload a stream whose definition (and upstream) did not change no longer produces the outputs of the never-reloaded engine",
                                 wit(json!({"mode": "same-program", "stream": name, "stream_kind": kind, "first_diverging_event_index": dstep, "expected_of_step": a.outs[dstep], "observed_of_step": b.run.outs[dstep],
                                     "expected_after": a.outs[c..].to_vec(), "observed_after": b.run.outs[c..].to_vec(), "routed_expected": a.routes[c..=dstep].to_vec(), "routed_observed": b.run.routes[c..=dstep].to_vec(), "report": b.report})),
@@ -490,9 +505,10 @@ fn check_case(case: &Case, only_cut: Option<usize>, out: &mut Partial, rt: &toki
                 // report classification
                 let renamed = find(&case.streams, &s2.name).is_none();
                 let ok = if renamed { b.added.contains(&s2.name) } else { b.updated.contains(&s2.name) };
-                if !ok {
+                // (an edited function leaves the stream's own text as it was: the report is not judged there)
+                if !ok && edit != "function" {
                     out.violation(
-                        &format!("reload/report/{}/{}/changed-stream-not-updated", edit, fam),
+                        "reload/report/changed-stream-not-updated",
                         "ReloadReport does not list a stream whose definition changed as updated (renamed: added)",
                         wit(json!({"stream": s2.name, "stream_kind": kind, "report": b.report})),
                     );
@@ -510,10 +526,12 @@ fn check_case(case: &Case, only_cut: Option<usize>, out: &mut Partial, rt: &toki
                     continue;
                 }
                 let dstep = (c..n).find(|j| of_stream(&b.run.outs[*j], &s2.name) != of_stream(&f.outs[*j - c], &s2.name)).unwrap_or(c);
-                let route_lost = (c..=dstep).any(|t| f.routes[t - c].contains(&s2.name) && !b.run.routes[t].contains(&s2.name));
+                let route_lost = lost_route(&f.routes[..=(dstep - c)], &b.run.routes[c..=dstep], &s2.name);
                 let symptom = if route_lost {
                     "route-lost"
-                } else if !renamed && bw == whole(&a.outs[c..], &s2.name) && bw != fw {
+                } else if !renamed && ((edit != "function" && !b.updated.contains(&s2.name)) || (bw == whole(&a.outs[c..], &s2.name) && bw != fw)) {
+                    // the engine itself reports the stream as not updated (it then keeps the old
+                    // StreamDefinition), or the stream behaves exactly like the old program
                     "old-definition-kept"
                 } else {
                     "different"
@@ -521,7 +539,11 @@ fn check_case(case: &Case, only_cut: Option<usize>, out: &mut Partial, rt: &toki
                 if !reported {
                     reported = true;
                     out.violation(
-                        &format!("reload/changed-stream/{}/{}/{}", edit, fam, symptom),
+                        &(match symptom {
+                            "route-lost" => format!("reload/route-lost/{}", fam),
+                            "old-definition-kept" => format!("reload/old-definition-kept/{}", fam),
+                            _ => format!("reload/changed-stream/{}/{}/{}", edit, fam, symptom),
+                        }),
                         "after reload(P') a stream whose definition changed does not behave like the same stream of a fresh engine of P' fed the remaining input",
                         wit(json!({"stream": s2.name, "stream_kind": kind, "first_diverging_event_index": dstep, "expected_fresh_engine_outputs": fw, "observed_outputs": bw, "never_reloaded_old_program_outputs": whole(&a.outs[c..], &s2.name),
                             "routed_expected": f.routes[..=(dstep - c)].to_vec(), "routed_observed": b.run.routes[c..=dstep].to_vec(), "report": b.report})),
@@ -539,7 +561,7 @@ fn check_case(case: &Case, only_cut: Option<usize>, out: &mut Partial, rt: &toki
                     continue;
                 }
                 let dstep = (c..n).find(|j| of_stream(&b.run.outs[*j], &s2.name) != of_stream(&a.outs[*j], &s2.name)).unwrap_or(c);
-                let route_lost = (c..=dstep).any(|t| a.routes[t].contains(&s2.name) && !b.run.routes[t].contains(&s2.name));
+                let route_lost = lost_route(&a.routes[c..=dstep], &b.run.routes[c..=dstep], &s2.name);
                 let symptom = if route_lost {
                     "route-lost"
                 } else if whole(&f.outs, &s2.name) == whole(&b.run.outs[c..], &s2.name) {
@@ -550,7 +572,7 @@ fn check_case(case: &Case, only_cut: Option<usize>, out: &mut Partial, rt: &toki
                 if !reported {
                     reported = true;
                     out.violation(
-                        &format!("reload/unchanged-stream/{}/{}", fam, symptom),
+                        &(if route_lost { format!("reload/route-lost/{}", fam) } else { format!("reload/unchanged-stream/{}/{}", fam, symptom) }),
                         "after a reload a stream whose definition (and upstream) did not change no longer produces the outputs of the never-reloaded engine",
                         wit(json!({"mode": format!("edit-{}", edit), "stream": s2.name, "stream_kind": kind, "first_diverging_event_index": dstep, "expected_outputs": whole(&a.outs[c..], &s2.name), "observed_outputs": whole(&b.run.outs[c..], &s2.name),
                             "routed_expected": a.routes[c..=dstep].to_vec(), "routed_observed": b.run.routes[c..=dstep].to_vec(), "report": b.report})),
@@ -562,7 +584,7 @@ fn check_case(case: &Case, only_cut: Option<usize>, out: &mut Partial, rt: &toki
 }
 
 fn gen_case(rng: &mut Rng, thorough: bool) -> Case {
-    let opts = POpts { max_streams: if rng.chance(1, 3) { 1 } else { 4 }, watermarks: false, patterns: true, merges: true };
+    let opts = POpts { max_streams: if rng.chance(1, 3) { 1 } else { 4 }, watermarks: false, patterns: true, merges: true, functions: true };
     let mut p = gen_prog(rng, &opts);
     let mut guard = 0;
     while !p.streams.iter().any(|s| s.is_stateful()) && guard < 20 {
@@ -570,7 +592,7 @@ fn gen_case(rng: &mut Rng, thorough: bool) -> Case {
         guard += 1;
     }
     let p2 = gen_edit(rng, &p);
-    let io = IOpts { submillis: false, out_of_order_pct: 0, wm_sources: vec![], vars: false };
+    let io = IOpts { submillis: false, out_of_order_pct: 0, wm_sources: vec![], vars: false, lag: None };
     let len = if thorough { 10 + rng.below(26) } else { 8 + rng.below(13) };
     let ins: Vec<In> = gen_steps(rng, len, &io).into_iter().filter_map(|s| if let Step::Ev(i) = s { Some(i) } else { None }).collect();
     let edited = p2.map(|(p2, e, i)| Edited { src: p2.vpl(), streams: infos(&p2), edit: e.to_string(), stream: p.streams[i].name.clone() });
@@ -582,7 +604,7 @@ fn main() {
     install_quiet_panic_hook();
     watchdog("C23", args.pick(1500, 14400));
     let mut rep = Report::new("C23", "exploration", &args);
-    rep.rule = "programs of 1-4 streams with >=1 stateful stream (all window kinds plain/partitioned, 2-3 step sequences incl. `all` and .not, named patterns, joins, distinct, limit, merge, filters, derived chains) x 8-20 (thorough 10-35) events of types A/B/C/N x EVERY reload point 1..len-1, each with (i) reload of the same program and (ii) reload of the program with one random edit: threshold change with the same operator count (filter / window pre- and post-filter / limit / sequence step constant), added step, removed step (.where, last sequence step), changed window (parameter or kind; join window), renamed stream. Compared: all outputs after the reload point (same program: ordered; edited: per stream) against the never-reloaded engine (unchanged streams) or a fresh engine of the edited program fed the remaining input (changed streams with stateless upstream); ReloadReport classification of changed streams. Non-trivial: reload point at which create_checkpoint() of the engine holds >=1 state item and >=1 output follows; distinct by (program, edit, events, point).".into();
+    rep.rule = "programs of 1-4 streams with >=1 stateful stream (all window kinds plain/partitioned, 2-3 step sequences incl. `all` and .not, named patterns, joins, distinct, limit, merge, filters, derived chains) x 8-20 (thorough 10-35) events of types A/B/C/N x EVERY reload point 1..len-1, each with (i) reload of the same program and (ii) reload of the program with one random edit: threshold change with the same operator count (filter / window pre- and post-filter / limit / sequence step constant), changed body of a user function a filter calls, added step, removed step (.where, last sequence step), changed window (parameter or kind; join window), renamed stream. Compared: all outputs after the reload point (same program: ordered; edited: per stream) against the never-reloaded engine (unchanged streams) or a fresh engine of the edited program fed the remaining input (changed streams with stateless upstream); ReloadReport classification of changed streams. Non-trivial: reload point at which create_checkpoint() of the engine holds >=1 state item and >=1 output follows; distinct by (program, edit, events, point).".into();
     rep.assume("a changed stream is compared with a fresh engine only when every stream it (transitively) consumes is stateless; an unchanged stream is compared with the never-reloaded engine only when its whole upstream is unchanged; removed (old-name) streams are not judged");
     rep.assume("outputs compared by stream name and data fields; emission wall-clock timestamps excluded; no `.within`, no watermarks in generated programs");
 
@@ -599,14 +621,20 @@ fn main() {
             println!("edited program ({} of {}):\n{}", e.edit, e.stream, e.src);
         }
         check_case(&case, cut, &mut out, &rt, true);
-        out.nontrivial(&1);
-        out.nontrivial(&2);
-        rep.merge(out);
-        std::process::exit(rep.finish());
+        // replay prints what it sees; it does not write evidence or replay files
+        let mut sigs: Vec<&String> = out.violations.iter().map(|v| &v.0).collect();
+        sigs.dedup();
+        for sg in &sigs {
+            println!("VIOLATION property={} signature={}", rep.property, sg);
+        }
+        for w in &out.inconclusive {
+            println!("INCONCLUSIVE property={} reason={}", rep.property, w);
+        }
+        std::process::exit(if !sigs.is_empty() { 1 } else if !out.inconclusive.is_empty() { 2 } else { 0 });
     }
 
     let threads = ncpu();
-    let cases = args.pick(1100usize, 40_000usize);
+    let cases = args.pick(800usize, 24_000usize);
     let per_thread = cases / threads + 1;
     let thorough = args.thorough();
     let parts = parallel(threads, args.seed ^ 0xC23, move |_ti, mut rng| {
